@@ -55,7 +55,10 @@ Definition c16_mon (c : c16_case) : bool :=
   match c with
   | CStd s obs => sch_eqb (rebuild obs) (normalise s) && negb (dangling_schema obs) && kinds_consistent obs &&
                   possible_consistent obs
-  | CShape s en qn roots data errs => if en then nil_b errs else monitor_disabled roots data errs
+  | CShape s en qn roots data errs =>
+      (* enabled: the answer is the selection evaluated on the description of the schema (which mirrors the schema:
+         C16_introspection_roundtrip), without errors; disabled: nothing is revealed *)
+      if en then nil_b errs && jv_eqb data (rr_data (exec_roots fixed true s qn roots)) else monitor_disabled roots data errs
   end.
 
 (** the monitors accept what the model itself answers (a check on the machinery, not on gqlgen) *)
